@@ -198,6 +198,37 @@ func (r *c15Reader) Read(p []byte) (int, error) {
 	return n, nil
 }
 
+// named types: the helpers are generic over ~string | ~[]byte, so a defined type must give the same result as the plain one
+type c15Str string
+type c15Bytes []byte
+
+var c15NamedDigest = []func(s c15Str, b c15Bytes) ([]byte, []byte, string){
+	func(s c15Str, b c15Bytes) ([]byte, []byte, string) {
+		return hashz.Md5(s), hashz.Md5(b), hashz.Md5ToString(s)
+	},
+	func(s c15Str, b c15Bytes) ([]byte, []byte, string) {
+		return hashz.Sha1(s), hashz.Sha1(b), hashz.Sha1ToString(b)
+	},
+	func(s c15Str, b c15Bytes) ([]byte, []byte, string) {
+		return hashz.Sha224(s), hashz.Sha224(b), hashz.Sha224ToString(s)
+	},
+	func(s c15Str, b c15Bytes) ([]byte, []byte, string) {
+		return hashz.Sha256(s), hashz.Sha256(b), hashz.Sha256ToString(b)
+	},
+	func(s c15Str, b c15Bytes) ([]byte, []byte, string) {
+		return hashz.Sha384(s), hashz.Sha384(b), hashz.Sha384ToString(s)
+	},
+	func(s c15Str, b c15Bytes) ([]byte, []byte, string) {
+		return hashz.Sha512(s), hashz.Sha512(b), hashz.Sha512ToString(b)
+	},
+	func(s c15Str, b c15Bytes) ([]byte, []byte, string) {
+		return hashz.Sha512_224(s), hashz.Sha512_224(b), hashz.Sha512_224ToString(s)
+	},
+	func(s c15Str, b c15Bytes) ([]byte, []byte, string) {
+		return hashz.Sha512_256(s), hashz.Sha512_256(b), hashz.Sha512_256ToString(b)
+	},
+}
+
 func c15Exact(b []byte) []byte { c := make([]byte, len(b)); copy(c, b); return c[:len(b):len(b)] }
 
 func c15Impl(in []int64) []int64 {
@@ -219,7 +250,10 @@ func c15Impl(in []int64) []int64 {
 		v3, e3 := strconv.ParseUint(s1, int(a), int(b))
 		k1, k2, k3 := c15GolibKind(e1), c15GolibKind(e2), c15StdKind(e3)
 		out := []int64{k1, int64(v1 >> 32), int64(v1 & 0xffffffff)}
-		return append(out, flags(v1 == v3 && k1 == k3, v1 == v2 && k1 == k2)...)
+		v4, e4 := strz.ParseUint(c15Str(s1), int(a), int(b))
+		v5, e5 := strz.ParseUint(c15Bytes(c15Exact(d1)), int(a), int(b))
+		named := v4 == v1 && v5 == v1 && c15GolibKind(e4) == k1 && c15GolibKind(e5) == k1
+		return append(out, flags(v1 == v3 && k1 == k3, named && v1 == v2 && k1 == k2)...)
 	case 1:
 		o1 := strz.HexEncode(s1)
 		o2 := strz.HexEncode(b1)
@@ -227,7 +261,8 @@ func c15Impl(in []int64) []int64 {
 		o4 := strz.HexEncodeToString(b1)
 		std := hex.EncodeToString(d1)
 		out := PutList(Bytes(o1))
-		return append(out, flags(string(o1) == std, string(o2) == std && o3 == std && o4 == std)...)
+		named := string(strz.HexEncode(c15Str(s1))) == std && strz.HexEncodeToString(c15Bytes(c15Exact(d1))) == std
+		return append(out, flags(string(o1) == std, named && string(o2) == std && o3 == std && o4 == std)...)
 	case 2:
 		o1, e1 := strz.HexDecode(s1)
 		o2, e2 := strz.HexDecode(b1)
@@ -268,7 +303,13 @@ func c15Impl(in []int64) []int64 {
 		default:
 			o1, o2, o3, o4 = hashz.Sha512_256(s1), hashz.Sha512_256(b1), hashz.Sha512_256ToString(s1), hashz.Sha512_256ToString(b1)
 		}
-		return append(PutList(Bytes(o1)), flags(true, bytes.Equal(o1, o2) && string(o1) == o3 && o3 == o4)...)
+		ai := int(a)
+		if ai < 0 || ai > 7 {
+			ai = 7
+		}
+		n1, n2, n3 := c15NamedDigest[ai](c15Str(s1), c15Bytes(c15Exact(d1)))
+		named := bytes.Equal(o1, n1) && bytes.Equal(o1, n2) && o3 == n3
+		return append(PutList(Bytes(o1)), flags(true, named && bytes.Equal(o1, o2) && string(o1) == o3 && o3 == o4)...)
 	case 5:
 		h := c15Hash(a)
 		s2, b2 := string(d2), c15Exact(d2)
@@ -328,7 +369,8 @@ func c15Impl(in []int64) []int64 {
 		o2 := strz.Base64Encode(b1, enc)
 		o3 := strz.Base64EncodeToString(s1, enc)
 		o4 := strz.Base64EncodeToString(b1, enc)
-		return append(PutList(Bytes(o1)), flags(true, bytes.Equal(o1, o2) && string(o1) == o3 && o3 == o4)...)
+		named := bytes.Equal(o1, strz.Base64Encode(c15Str(s1), enc)) && o3 == strz.Base64EncodeToString(c15Bytes(c15Exact(d1)), enc)
+		return append(PutList(Bytes(o1)), flags(true, named && bytes.Equal(o1, o2) && string(o1) == o3 && o3 == o4)...)
 	case 8:
 		enc := c15Encs[a&3]
 		o1, e1 := strz.Base64Decode(s1, enc)
